@@ -64,6 +64,12 @@ JOBS = [
     dict(job=('specs.s3', 'facade_units', {}), props=['C15', 'C07']),
     dict(job=('specs.s3', 'facade_iter_keys', {}), props=['C10', 'C16', 'C15']),
     dict(job=('specs.s3', 's3_iter_recording_ids', {}), props=['C10', 'C16', 'C15']),
+    # ---- studio
+    dict(job=('specs.studio', 'grouping', {}), props=['C19']),
+    dict(job=('specs.studio', 'play_category', {}), props=['C19', 'C10']),
+    dict(job=('specs.studio', 'play', {'mode': 'explicit'}), props=['C19']),
+    dict(job=('specs.studio', 'play', {'mode': 'lookup'}), props=['C19']),
+    dict(job=('specs.studio', 'find_matching', {}), props=['C19', 'C10', 'C18']),
     # ---- key functions
     dict(job=('specs.keys', 'input_key', {}), props=['C06']),
     dict(job=('specs.keys', 'output_key', {}), props=['C03', 'C06']),
@@ -107,6 +113,9 @@ def extra_for(prop, tier, seed):
         out.append(native_witness('C07/native/jsonpickle_tag_keys_round_trip', 'C07', 'replay/witness/c07_reserved_keys.py', 'C07-jsonpickle-tag-keys', ['tags']))
     if prop == 'C06':
         out.append(native_witness('C06/native/set_argument_key_is_hash_seed_independent', 'C06', 'replay/witness/c06_set_hashseed.py', 'C06-set-hash-seed'))
+    if prop == 'C10':
+        from specs import studio
+        out.append(studio.lemmas)
     if prop in ('C07', 'C10'):
         from specs import cassettes
         out.append(lambda: (lambda r: dict(r, results=[x for x in r['results'] if x['prop'] == prop]))(cassettes.lemmas()))
@@ -218,4 +227,10 @@ CLAIMS['C16'] = dict(text='Window lemma in linear integer arithmetic over the co
                           'day(end), map rule over range), _get_days_iterators (window passed unchanged to every folder iterator), the facade predicate '
                           '(start <= last_modified <= end) and create_new_recording (day folder of the creation instant).',
                      note=TB + 'A7: instants are integers, strftime("%Y%m%d") injective per day, today() = utcnow().')
+CLAIMS['C19'] = dict(text='Grouping contract (spec function: category -> subsequence of ids of that category, loop invariant, sorted categories), _play_category '
+                          'contract (tuner asked once for this category; a tuning error is returned for this category alone and nothing is played; otherwise the '
+                          'comparison generator of an equalizer built from this category\'s tuning, the given ids or this category\'s lookup, and a player closure '
+                          'that replays an id with this category\'s playback function), play contract (one _play_category call per category, stored under it), '
+                          'composed with the generator contract of C08 (one complete play per next) and the idle postcondition of C09.',
+                     note=TB + 'consuming the generators in any interleaving is covered by composition: each next() runs one complete play on an idle recorder (C09).')
 NOT_APPLICABLE = {}
